@@ -461,5 +461,9 @@ def check(ctx):
     ctx.rule("R7", "what one connection counts does not follow the manager into the next: no class keeps per-connection data (error counts, change lists, caches) in a class-level container mutated through the instance (C10.R8's rule borrowed) - an RF-error count shared by all RFERR handlers of the process crosses the halt threshold in the middle of a later handshake and the reset it triggers kills the reconnect driver")
     from .c10 import shared_class_state
     shared_class_state(ctx.borrowed("R7", "C10"), repo, "R8")
+    ctx.rule("R9", "the watch runs under BOTH configuration tables: every request the connection's loops send (ping, refresh, watercare, reminders) is built, under the idle table, the active table and a table whose members all differ, with a positive timeout - a timeout computed from another member (`PING_FREQUENCY_IN_SECONDS // 4` is 0 in the active table) fails the assertion of wait_for_response the first time a pump runs: the ping loop ends with the exception, nothing raises RUNNING_PING_NO_RESPONSE any more, the refresh and facade loops skip for good, and the manager stays CONNECTED through every later outage")
+    from ..handlermodel import armed_under_every_table
+    armed_under_every_table(ctx, repo, "R9", only=("GeckoPingProtocolHandler", "GeckoStatusBlockProtocolHandler", "GeckoWatercareProtocolHandler", "GeckoRemindersProtocolHandler"),
+                            why=" - the ping loop dies and an unreachable spa is never reported")
     ctx.note("NOT decided (the headline of the property): that recovery happens, within what time, after which fault scripts; that the facade's values mirror the spa afterwards. States that are terminal by design (CONNECTING after 'cannot find spa pack') are not flagged.")
     ctx.assume("a ping loop exists in the states named by the ping-received row (a connection was established before the error)")
